@@ -400,3 +400,106 @@ for sep in ['\\t', ' ', ',', '|', ';']:
                 break
         u.static(f"dispatch.suffix[{suffix}]", ok, fi.qualname, f"{suffix} handled by {reader}")
     u.static("dispatch.unknown_raises", "Image format not supported" in src, fi.qualname, "unknown suffix raises ValueError")
+
+
+# ---- the memoised loader is transparent: a history of two loads ------------------------------------------------------
+IMG = "pyxel/util/image.py"
+FITTED = z3.Function("fitted_image", z3.StringSort(), z3.IntSort(), z3.IntSort(), z3.IntSort(), z3.IntSort(), z3.BoolSort(), z3.IntSort(), z3.IntSort(), z3.IntSort())
+SIG_M, SIG_S = z3.Function("file_mtime", z3.StringSort(), z3.IntSort(), z3.IntSort()), z3.Function("file_size", z3.StringSort(), z3.IntSort(), z3.IntSort())
+
+CACHE_HISTORY_REPLAY = lambda w: {"code": f"""
+import numpy as np, tempfile, os
+from pyxel.util import load_cropped_and_aligned_image, fit_into_array
+d = tempfile.mkdtemp(); fn = os.path.join(d, 'img.npy')
+img = np.arange(16, dtype=float).reshape(4, 4) + 1.0
+np.save(fn, img)
+cands = [(({w.get('x1', 0)}, {w.get('y1', 0)}), ({w.get('x2', 0)}, {w.get('y2', 0)})), ((-1, 0), (-2, 0)), ((0, -1), (0, -2)), ((1, 0), (0, 1)), ((0, 0), (2, 2)), ((-2, 1), (-1, 1))]
+VIOLATED, DETAIL = False, 'every second load equals a fresh placement'
+for (x1, y1), (x2, y2) in cands:
+    if max(abs(x1), abs(y1), abs(x2), abs(y2)) > 5:
+        continue
+    try:
+        load_cropped_and_aligned_image(shape=(6, 6), filename=fn, position_x=x1, position_y=y1)
+        got = np.array(load_cropped_and_aligned_image(shape=(6, 6), filename=fn, position_x=x2, position_y=y2))
+        want = fit_into_array(array=img, output_shape=(6, 6), relative_position=(y2, x2), align=None, allow_smaller_array=True)
+    except Exception as e:
+        continue
+    if not np.array_equal(got, want):
+        VIOLATED, DETAIL = True, f'load at (x={{x1}}, y={{y1}}) then at (x={{x2}}, y={{y2}}): second result differs from placing the file at (x={{x2}}, y={{y2}})'
+        break
+""", "expect": "a load returns the file placed with ITS arguments, whatever was loaded before"}
+
+
+@unit("C20", "cache.transparent")
+def cache_transparent(u: Unit):
+    """History of two calls of load_cropped_and_aligned_image starting from an empty cache, with arbitrary (possibly equal)
+    arguments and an optional rewrite of the file in between: each call returns what the uncached loader gives for ITS
+    arguments and the file's CURRENT signature. functools.lru_cache is a library contract (memo keyed by argument
+    equality); a hand-written cache is executed symbolically, with Python's hash modelled without injectivity.
+    BOUNDED in the length of the history (two calls)."""
+    from pyvc.front import FunctionInfo
+    fw = u.fn(f"{IMG}::load_cropped_and_aligned_image")
+    inner = f"{IMG}::_load_cropped_and_aligned_image"
+    src = ("def _history(shape, fname, x1, y1, x2, y2, asa):\n"
+           "    a = load_cropped_and_aligned_image(shape=shape, filename=fname, position_x=x1, position_y=y1, allow_smaller_array=asa)\n"
+           "    _rewrite_hook()\n"
+           "    b = load_cropped_and_aligned_image(shape=shape, filename=fname, position_x=x2, position_y=y2, allow_smaller_array=asa)\n"
+           "    return (a, b)\n")
+    drv = FunctionInfo(fw.module, ast.parse(src).body[0], None)
+    cfg = Cfg("real")
+    EPOCH = "FILE_EPOCH"
+
+    def tok(v):
+        return v.t if isinstance(v, VOpaque) else None
+
+    def inner_contract(ex, args, kwargs, fr):
+        sh, fn_, px, py = kwargs.get("shape"), kwargs.get("filename"), kwargs.get("position_x", VInt(0)), kwargs.get("position_y", VInt(0))
+        asa, sig = kwargs.get("allow_smaller_array", VBool(True)), kwargs.get("file_signature", NONE)
+        if not isinstance(sh, VTuple) or len(sh.items) != 2 or not isinstance(fn_, VStr):
+            raise Unsupported("inner loader called with unexpected argument shapes")
+        if isinstance(sig, VTuple) and len(sig.items) == 2:
+            sg = z_int(int_of(sig.items[0])) * 1000003 + z_int(int_of(sig.items[1]))
+        else:       # not part of the key: the function reads the file as it is now
+            e = ex.st.ghost[EPOCH]
+            sg = SIG_M(z_str(fn_.v), e) * 1000003 + SIG_S(z_str(fn_.v), e)
+        return VOpaque("img", FITTED(z_str(fn_.v), z_int(int_of(sh.items[0])), z_int(int_of(sh.items[1])), z_int(int_of(px)), z_int(int_of(py)), zb(ex.truth(asa, fr)), sg, z3.IntVal(0)), {})
+    cfg.contracts[inner] = Contract(inner, inner_contract, "uncached loader: a function of its arguments and of the file content (signature)")
+    gs = f"{IMG}::_get_file_signature"
+    cfg.contracts[gs] = Contract(gs, lambda ex, args, kwargs, fr: VTuple([VInt(SIG_M(z_str((args[0] if args else kwargs["filename"]).v), ex.st.ghost[EPOCH])),
+                                                                           VInt(SIG_S(z_str((args[0] if args else kwargs["filename"]).v), ex.st.ghost[EPOCH]))]),
+                                "stat signature of the file at this moment")
+    cfg.name_overrides["_rewrite_hook"] = VLib("verif.rewrite_hook")
+
+    def rewrite(ex, f, args, kwargs, fr):
+        if ex.st.branch(z3.Bool("file_rewritten_between")):
+            e0 = ex.st.ghost[EPOCH]
+            ex.st.ghost[EPOCH] = e0 + 1
+            fnm = z3.String("file_name")
+            # premise (TRUSTED): a rewrite changes the (mtime_ns, size) signature
+            ex.st.assume(z3.Or(SIG_M(fnm, e0) != SIG_M(fnm, e0 + 1), SIG_S(fnm, e0) != SIG_S(fnm, e0 + 1)))
+            ex.st.assume(z3.And(SIG_M(fnm, e0) >= 0, SIG_M(fnm, e0 + 1) >= 0, SIG_S(fnm, e0) >= 0, SIG_S(fnm, e0 + 1) >= 0, SIG_S(fnm, e0) < 1000003, SIG_S(fnm, e0 + 1) < 1000003))
+        return NONE
+    cfg.lib_overrides["verif.rewrite_hook"] = rewrite
+    X1, Y1, X2, Y2, R_, C_ = z3.Ints("x1 y1 x2 y2 shape_rows shape_cols")
+
+    def setup(ex):
+        ex.st.ghost[EPOCH] = z3.IntVal(0)
+        return [], {"shape": VTuple([VInt(R_), VInt(C_)]), "fname": VStr(z3.String("file_name")), "x1": VInt(X1), "y1": VInt(Y1), "x2": VInt(X2), "y2": VInt(Y2),
+                    "asa": VBool(z3.Bool("allow_smaller"))}
+    ps = u.paths(drv, setup, cfg, label="two loads through load_cropped_and_aligned_image")
+    w = {"x1": X1, "y1": Y1, "x2": X2, "y2": Y2, "rewritten": z3.Bool("file_rewritten_between")}
+    fnm = z3.String("file_name")
+    for p in ps:
+        if p.kind != "return":
+            u.oblige(p, "cache.transparent.no_raise", False, dict(w, exc=p.exc_name()), CACHE_HISTORY_REPLAY)
+            continue
+        a, b = p.value.items
+        e_end = p.st.ghost[EPOCH]
+
+        def want(px, py, e):
+            return FITTED(fnm, R_, C_, px, py, z3.Bool("allow_smaller"), SIG_M(fnm, e) * 1000003 + SIG_S(fnm, e), z3.IntVal(0))
+        u.oblige(p, "cache.transparent[first load]", (a.t == want(X1, Y1, z3.IntVal(0))) if isinstance(a, VOpaque) and a.t is not None else False, w, CACHE_HISTORY_REPLAY,
+                 info={"small": [X1, Y1, X2, Y2]})
+        u.oblige(p, "cache.transparent[second load]", (b.t == want(X2, Y2, e_end)) if isinstance(b, VOpaque) and b.t is not None else False, w, CACHE_HISTORY_REPLAY,
+                 info={"small": [X1, Y1, X2, Y2]})
+    u.cover("cache.transparent.cover", ps, lambda p: p.kind == "return")
